@@ -9,7 +9,8 @@ import numpy as np
 METHODS = ["iterate-exact", "iterate-expanded", "perturbative-exact", "perturbative-expanded",
            "truncated", "ordered-truncated", "decompose-exact", "decompose-expanded"]
 SVS = ["none", "expo", "expanded"]
-SHAPES = ["single", "up", "down"]
+SHAPES = ["single", "up", "down", "point", "wall"]
+DEGENERATE_METHODS = ("iterate-exact", "truncated")
 INVS = ["none", "exact", "expanded"]
 
 
@@ -20,6 +21,8 @@ def domain():
             continue  # em_running without QED is C55's subject
         if shape != "down" and inv != "none":
             continue  # inversion method without a downward matching is C55's subject
+        if shape in ("point", "wall") and m not in DEGENERATE_METHODS:
+            continue
         yield dict(qcd=qcd, qed=qed, method=m, sv=sv, pol=pol, tl=tl, shape=shape, inv=inv, emrun=emrun, top=top)
 
 
@@ -46,10 +49,14 @@ def cards(cfg, seed=0, iterations=2, max_order=(3, 0), xif=None, n3lo=(0,) * 7, 
     mus = {3: 1.25, 4: rng.choice([1.6, 2.2]), 5: mb * 1.4, 6: 300.0}
     hi = {3: 1.45, 4: 3.9, 5: 60.0, 6: 500.0}
     th["heavy"]["matching_ratios"][0] = 1.0
-    if cfg["shape"] == "single":
+    if cfg["shape"] in ("single", "point"):
         nf = 6 if cfg.get("top") else rng.choice([3, 4, 4, 5])
         op["init"] = (mus[nf], nf)
-        op["mugrid"] = [(hi[nf], nf)]
+        op["mugrid"] = [(hi[nf], nf)] if cfg["shape"] == "single" else [(mus[nf], nf)]
+    elif cfg["shape"] == "wall":
+        lo_nf = 5 if cfg.get("top") else rng.choice([3, 4, 4])
+        op["init"] = (mus[lo_nf] if lo_nf != 4 else rng.choice([1.6, 3.0]), lo_nf)
+        op["mugrid"] = [({3: 1.51, 4: mb, 5: 172.5}[lo_nf], lo_nf + 1)]
     else:
         lo_nf = 5 if cfg.get("top") else rng.choice([3, 4, 4])
         a = (mus[lo_nf] if lo_nf != 4 else rng.choice([1.6, 3.0]), lo_nf)
